@@ -178,10 +178,6 @@ class W(fullwire.FullWorld):
         self.net.bad_send_tag = tag
 
     def violate(self, sig, detail):
-        if self.dispatcher == "socket" and self.connecting_disc_requests:
-            # one specific history class: the (non-default) socket dispatcher received a disconnect request while its
-            # blocking connect() was still in progress — everything that follows in such a run is attributed to it
-            sig = "socket-dispatcher-disconnect-while-connecting/" + sig.split("/")[0]
         super(W, self).violate("C16/" + sig, detail)
 
     def spec(self, attempt):
